@@ -783,7 +783,13 @@ func drawRequest(rt *rapid.T, id int, peers []peerInfo, peerIdx int, mask [nTran
 
 // drawLightRequest draws the simple request shapes used to load the rate limiter.
 func drawLightRequest(rt *rapid.T, id int, peers []peerInfo, peerIdx int, mask [nTransports]bool) *reqSpec {
-	shape := rapid.IntRange(0, 11).Draw(rt, "shape")
+	return lightRequest(rt, rapid.IntRange(0, 11).Draw(rt, "shape"), id, peers, peerIdx, mask)
+}
+
+// lightRequest builds the light request of the given shape: 0..2 refused at once, 3..5
+// same IP, 6..8 foreign IP / DNS (dial data), 9..10 the client sits on the stream, 11 a
+// rich request.
+func lightRequest(rt *rapid.T, shape, id int, peers []peerInfo, peerIdx int, mask [nTransports]bool) *reqSpec {
 	if shape == 11 {
 		return drawRequest(rt, id, peers, peerIdx, mask)
 	}
